@@ -61,6 +61,11 @@ CLAIMED = {
   "JsonSchema.tla defines draft 2020-12 validity for type, enum, const, numeric and string bounds, pattern, properties, required, additionalProperties, patternProperties, propertyNames, min/maxProperties, items, min/maxItems, uniqueItems, contains, allOf/anyOf/oneOf/not, if/then/else and $defs/$ref over a 28-value instance universe, with sanity theorems (double negation, allOf = intersection, oneOf within anyOf). Every schema state (all keywords with all leaf sub-schemas, all leaf pairs under the combinators, if/then/else over a small set; thorough: sampled keyword pairs and depth-2 nesting) is rendered as JSON, run through jsonschema.Extract, compiled, and every instance is unified with it in-language; the verdict must equal Valid. Then jsonschema.Generate followed by Extract must accept the same instances. Five defect classes found on the unchanged tree are recorded as known findings.",
   "trusted: TLC, the Valid transcription, the JSON rendering; schemas the importer refuses are counted, not judged. Canary (flipped verdict set) must be noticed.",
   "DESIGN.md §3 C13"),
+ "C09": ("model_checking",
+  "TLA+ specs CueLiteral.tla (space of strings x quoting forms; grammar recogniser of string literals) and CueTokens.tla (token soups), enumerated by TLC; every state run through literal.Quote/Unquote, scanner, parser (and a sample through the evaluator)",
+  "CueLiteral.tla enumerates every sequence of <= 3 (thorough 4) symbols of a 17-symbol adversarial alphabet with each of 48 quoting forms (string/bytes x single/multi-line/optional multi-line x optional hashes x ASCII-only/graphic-only): Unquote(Quote(s)) must be s, and the quoted text must scan and parse as one literal. Its recogniser IsLit (single-line and multi-line literals with # delimiters and escapes, as a recursive operator) classifies every text over { \" \\ n a # LF } up to length 6 (thorough 8); scanner, parser and literal.Unquote must all agree with it. CueTokens.tla enumerates token soups of <= 3 (thorough 4) tokens from 36; each is parsed in two spacings: no panic, every error/node position inside the input, children within parents, siblings ordered.",
+  "trusted: TLC, the recogniser (calibrated to full agreement with the three implementations on the unchanged tree), the position checker (canary: nodes outside the input must be flagged). Arbitrary byte strings are not enumerated: totality is claimed for grammar-shaped inputs only.",
+  "DESIGN.md §3 C09"),
 }
 
 NOT_YET = "check not built yet in this round (see DESIGN.md §8 for the order of construction)"
